@@ -1,6 +1,12 @@
 package exporter
 
-import "github.com/prometheus/client_golang/prometheus"
+import (
+	"github.com/google/mtail/internal/metrics"
+	"github.com/prometheus/client_golang/prometheus"
+)
+
+// c12AwaitQueued: run the new goroutine until it blocks on the lock.
+func c12AwaitQueued(m *metrics.Metric) { vQuiesce() }
 
 // Accessors of recorded Prometheus samples (engine side: bodyless, the
 // executor answers from the arguments it recorded at the constructor call).
